@@ -249,6 +249,37 @@ def run(ctx: Ctx) -> None:
                 "after registering a second codec instance under an existing reference, writes pick the new instance (by type) while reads resolve the "
                 "persisted reference to the old one"], "tables", what=f"{name} updates the write-side and read-side codec tables inconsistently")
     rep.floor("C17.R6", n6, 2)
+    # ... and "the same condition" means the same KEY: where a registration method tests whether the reference is taken, it files the codec's types only when it
+    # is not (a codec whose reference is held by another one writes blobs that the other one reads back)
+    from ..propdom import excluding_branches as _exb
+    for name, m in reg.methods.items():
+        if not name.startswith("add_"):
+            continue
+        mcfg = cfg_of(m)
+        ref_calls = {unparse(x) for x in m.own_nodes() if isinstance(x, ast.Call) and isinstance(x.func, ast.Attribute) and x.func.attr == "ref" and not x.args}
+        ref_tests = [x for x in m.own_nodes() if isinstance(x, ast.Compare) and len(x.ops) == 1 and isinstance(x.ops[0], (ast.In, ast.NotIn)) and unparse(x.left) in ref_calls]
+        if not ref_tests:
+            continue
+        ref_tbl = unparse(ref_tests[0].comparators[0])
+
+        def _atom(e: ast.AST) -> Optional[str]:
+            if isinstance(e, ast.Compare) and len(e.ops) == 1 and isinstance(e.ops[0], (ast.In, ast.NotIn)) and unparse(e.left) in ref_calls and unparse(e.comparators[0]) == ref_tbl:
+                return "ref-taken" if isinstance(e.ops[0], ast.In) else "!ref-taken"
+            return None
+        avoid = _exb(prog, m, mcfg, {"ref-taken": True}, _atom)
+        type_stores = [x for x in m.own_nodes() if isinstance(x, ast.Subscript) and isinstance(x.ctx, ast.Store) and isinstance(x.value, ast.Attribute)
+                       and isinstance(x.value.value, ast.Name) and x.value.value.id == "self" and "self." + x.value.attr != ref_tbl]
+        for ts in type_stores:
+            n6 += 1
+            st_ = prog.enclosing_stmt(m.module, ts)
+            desc = f"{name}: `{unparse(st_, 50)}` is not reached when the codec's reference is held by another codec"
+            pth = mcfg.find_path([mcfg.entry], mcfg.nodes_of(st_), avoid=avoid)
+            if pth is None:
+                rep.ok("C17.R6", m.qname, desc, m.loc(ts))
+            else:
+                rep.bad("C17.R6", m.qname, desc, m.loc(ts), [f"{m.loc(ts)}: the codec is filed for its types although `{unparse(ref_tests[0], 50)}` holds: the reference keeps naming the other codec",
+                        "a user file codec whose ref() is 'local.pickle' and that handles MyT: store_blob(MyT(..)) writes with it and records 'local.pickle'; fetch_blob reads the blob with "
+                        "the pickle codec: UnpicklingError"], "types-without-reference", what=f"{name} files the types of a codec whose reference is held by another codec")
 
     # ---- R9 presence of empty results -------------------------------------------------------------------
     from . import storerules as S_
@@ -750,6 +781,23 @@ def _dict_attrs(reg: Class) -> Tuple[str, ...]:
     return tuple(out)
 
 
+def _dominated_by_table_test(m: Func, n: ast.AST, tables) -> bool:
+    """the store is reached only through an outcome of a membership test on one of the tables (also the early-return form: `if key in table: return` before it)"""
+    from ..cfg import cfg_of as _cfg_of
+    cfg = _cfg_of(m)
+    st = m.module.parent.get(n)
+    while st is not None and not isinstance(st, ast.stmt):
+        st = m.module.parent.get(st)
+    tg = cfg.nodes_of(st) if st is not None else []
+    for b in cfg.nodes:
+        if b.kind == "branch" and b.ast is not None and isinstance(b.ast, ast.expr) and any(
+                isinstance(x, ast.Compare) and len(x.ops) == 1 and isinstance(x.ops[0], (ast.In, ast.NotIn)) and isinstance(x.comparators[0], ast.Attribute) and x.comparators[0].attr in tables
+                for x in ast.walk(b.ast)):
+            if tg and all(cfg.dominated_by(t_, [b]) is None for t_ in tg):
+                return True
+    return False
+
+
 def _table_stores(ctx: Ctx, reg: Class, m: Func, guards: List[str], depth: int) -> List[Tuple[str, str, str]]:
     """(table attribute, 'unconditional' | 'guarded', where) for stores self.<table>[...] = codec reachable from m"""
     out: List[Tuple[str, str, str]] = []
@@ -766,7 +814,7 @@ def _table_stores(ctx: Ctx, reg: Class, m: Func, guards: List[str], depth: int) 
             out.append((t, "guarded" if guarded else "unconditional", m.loc(n)))
         elif isinstance(n, ast.Subscript) and isinstance(n.ctx, ast.Store) and isinstance(n.value, ast.Attribute) and n.value.attr in tables:
             t = n.value.attr
-            guarded = bool(guards)
+            guarded = bool(guards) or _dominated_by_table_test(m, n, tables)
             for a in _anc(m, n):
                 if isinstance(a, ast.If) and any(isinstance(x, ast.Attribute) and x.attr == t for x in ast.walk(a.test)):
                     guarded = True
